@@ -13,7 +13,10 @@ var strayKinds = []string{"other-verb", "extra-segment", "missing-segment", "cha
 // explore generates the seeded request workload of one project and runs it:
 // every plan alone (sequential node), then seeded concurrent groups.
 func (j *judge) explore(nodes map[string]*node, bp BatchProject, seed, pidx uint64, tier string) {
-	r := projgen.Stream(seed, "routersim/plans", pidx)
+	// keyed by the project's tag, not by its position in this process's list: re-running one project of a
+	// batch alone reproduces exactly the same plans, groups, schedules and per-node history
+	_ = pidx
+	r := projgen.Stream(seed, "routersim/plans/"+bp.Tag, 0)
 	pl := &planner{p: bp.Project, routes: j.routes, r: r, tag: bp.Tag}
 	reps := 1
 	if tier == "thorough" {
